@@ -41,7 +41,12 @@ RULE = (
     "derived from.  SimpleFormula: every history up to the bound over insert/append/setitem/del/extend/reverse/"
     "slice-delete (wide alphabet: also slice-assign/pop/remove/+=) with 5-6 terms, for the 3 ordering modes and 2 "
     "initial formulas; exact content and ordering invariant after every event, all reads at the end of every history.  "
-    "OrderedSet: every ordered pair of item sequences.  Non-trivial = the case has at least one leaf / one layer / "
+    "Blind variants (formula-sequence-blind*, layered-aliasing*): the same histories with NO read between two events "
+    "(comparison only at the end), so that state repaired by a read cannot hide a wrong write; layered-aliasing "
+    "additionally addresses events to the ORIGINAL mapping after mappings were derived from it (it is a live layer "
+    "of them) and lets the owner of a supplied dict write to it.  structured-map-raise: callbacks (3 signatures) that "
+    "raise a TypeError subclass / ValueError at each leaf in turn.  formula-slice-assign: f[i:j] = [terms] for 6 "
+    "slices x every replacement list.  OrderedSet: every ordered pair of item sequences.  Non-trivial = the case has at least one leaf / one layer / "
     "one mutation / one item (counted once per execution)."
 )
 ASSUMPTIONS = [
@@ -60,7 +65,10 @@ ASSUMPTIONS = [
     "unspecified and therefore not demanded: the order of _flatten (only its agreement with _map), the iteration order "
     "of a LayeredMapping, which of several equally named layers `named_layers` returns when depth-first and "
     "breadth-first 'first' differ, element order of OrderedSet intersection, tie order after SimpleFormula.reverse() "
-    "in degree mode, whether slice assignment to a SimpleFormula is supported (it must leave the formula ordered)",
+    "in degree mode",
+    "layers are referenced, not copied ('passing key lookups through the stack'): later changes of a supplied dict by "
+    "its owner, and of the original mapping after `with_layers(..., inplace=False)` derived another one from it, show "
+    "through; `SimpleFormula.__setitem__` declares a slice overload, so slice replacement is list semantics + re-sort",
 ]
 
 
@@ -363,6 +371,20 @@ UPDATES = [
 
 
 def op_update(col, node, build):
+    # several updates of ONE receiver: every result is its own dictionary merge, also after the later updates
+    s = build()
+    results = []
+    for ch in UPDATES:
+        r = s._update(**{k: st_build(v) for k, v in ch.items()})
+        results.append((ch, r))
+    for ch, r in results:
+        want = R.st_update(node, ch)
+        if st_obs(r) != want:
+            _viol(col, "update-aliasing", "result of an earlier s._update(...) changed by later updates of s", node,
+                  st_obs(r), want, "[s._update(**ch) for ch in several]")
+    if st_obs(s) != node or any(r is s or r is q for i, (_, r) in enumerate(results) for _, q in results[:i]):
+        _viol(col, "update-mutates", "repeated s._update(...) must leave s alone and return distinct objects", node,
+              st_obs(s), node, "s._update(...); s")
     for ch in UPDATES:
         s = build()
         kw = {k: st_build(v) for k, v in ch.items()}
@@ -424,6 +446,60 @@ def st_set_path(node, path, key, value):
     lst = list(node)
     lst[p] = st_set_path(lst[p], path[1:], key, value)
     return tuple(lst)
+
+
+class _Boom(TypeError):
+    pass
+
+
+def drv_st_map_raise(c, ctx, col):
+    """a callback that raises at the k-th leaf: _map must propagate that exception and must not call it again"""
+    node, nleaves = gen_top(c, ctx)
+    if not nleaves:
+        raise Skip()
+    k = c.choose(nleaves)
+    form = c.pick(["f(x, context)", "f(x, context=None)", "f(x)"])
+    exc = c.pick([_Boom, ValueError])
+    s = st_build(node)
+    calls = []
+    target = st_flat(s)[k]
+
+    def body(x):
+        calls.append(x)
+        if x == target:
+            raise exc("callback failed at leaf %r" % (x,))
+        return x
+    if form == "f(x, context)":
+        fn = lambda x, context: body(x)
+    elif form == "f(x, context=None)":
+        fn = lambda x, context=None: body(x)
+    else:
+        fn = lambda x: body(x)
+    col.interesting()
+    col.state(repr(R.st_canon(node)) + form + exc.__name__ + str(k))
+    expr = R.st_expr(node)
+    col.sample({"shape": expr, "callback": form, "raises": exc.__name__, "at_leaf_number": k + 1})
+    try:
+        s._map(fn)
+        got = "no exception"
+    except Exception as e:  # noqa
+        got = "%s: %s" % (type(e).__name__, e)
+    order = st_flat(s)
+    want_calls = order[:k + 1]
+    want = "%s: callback failed at leaf %r" % (exc.__name__, order[k])
+    detail = {"shape": expr, "callback": form, "raises": exc.__name__, "calls": calls, "want_calls": want_calls,
+              "got": got, "want": want,
+              "repro": "from formulaic.utils.structured import Structured; calls = []\n"
+                       "def fn(x, context%s):\n    calls.append(x)\n    if x == %d: raise TypeError('boom')\n    return x\n"
+                       "try: %s._map(fn)\nexcept Exception as e: print(repr(e))\nprint(calls)"
+                       % ("=None" if "None" in form else "", target, expr)}
+    key = "structured/map-raise :: %s raising %s at leaf %d :: %s" % (form, exc.__name__, k + 1, expr)
+    if calls != want_calls:
+        col.violation(key, detail, sig="map-retry-on-typeerror" if exc is _Boom else "map-visits")
+    elif got != want:
+        col.violation(key + " (exception)", detail, sig="map-masks-callback-error" if exc is _Boom else "map-visits")
+    if st_obs(s) != node:
+        col.violation(key + " (receiver)", detail, sig="mutated-by-read")
 
 
 ST_OPS = ["map", "flatten", "to_dict", "simplify", "access", "eq_pickle", "update"]
@@ -642,6 +718,7 @@ class LMWorld:
         self.handles = []         # [(real, model, variable name)] every mapping the history produced, newest last
         self.nvars = 0
         self.frames = False
+        self.ext = None           # (real dict, model dict, index in supplied, variable) of the first plain dict layer
 
     def real_of(self, model):
         for m, r in self.pairs:
@@ -752,13 +829,14 @@ def lm_light(col, w, h=-1):
         w.check_supplied(col, False)
 
 
-def lm_reads(col, w):
+def lm_reads(col, w, full_all=False):
     """every read operation on the mapping the history operates on (and lookups + len on the mappings it was derived
     from, which must be unaffected), compared with the model; supplied layers untouched"""
-    for h in range(len(w.handles) - 1):
-        lm_light(col, w, h)
+    if not full_all:
+        for h in range(len(w.handles) - 1):
+            lm_light(col, w, h)
     n = _norm if w.frames else (lambda v: v)
-    for real, model, var in w.handles[-1:]:
+    for real, model, var in (w.handles if full_all else w.handles[-1:]):
         keys = model.keys()
         for k in PROBE:
             f = model.find(k) if k in keys else None
@@ -804,7 +882,11 @@ def lm_named(col, w):
         cands = model.named_candidates()
         dfs = model.named_dfs_first()
         if set(got) != set(cands) or type(got) is not dict:
-            lm_violation(col, w, "named-layers", "sorted(%s.named_layers)" % var, sorted(got), sorted(cands))
+            # classification only: does a recomputation (cache dropped) give the right answer?
+            real.__dict__.pop("named_layers", None)
+            stale = set(real.named_layers) == set(cands)
+            lm_violation(col, w, "named-layers-stale-cache" if stale else "named-layers",
+                         "sorted(%s.named_layers)" % var, sorted(got), sorted(cands))
             continue
         for name, lm in got.items():
             ok_objs = [w.real_of(m) if m is not model else real for m in cands[name]]
@@ -832,6 +914,17 @@ def lm_named(col, w):
             pass
 
 
+def lm_events_alias():
+    """events addressed to the newest mapping or to the ORIGINAL one (which is a live layer of everything derived
+    from it), plus writes by the owner of a supplied dict"""
+    base = [("set", "k1"), ("del", "k1"), ("named",)]
+    for inplace in (False, True):
+        for prepend in (True, False):
+            base.append(("wl", "plain", prepend, inplace, "keep"))
+            base.append(("wl", "lm:e", prepend, inplace, "r"))
+    return [("on", t, e) for t in ("cur", "orig") for e in base] + [("ext-set", "k1"), ("ext-set", "k2")]
+
+
 def lm_events_kinds():
     """reduced alphabet + with_layers handing over a defaultdict"""
     return lm_events(False) + [("wl", "dd:list", prepend, inplace, "keep") for inplace in (False, True)
@@ -853,8 +946,23 @@ def lm_events(full):
     return ev
 
 
-def lm_apply(col, w, ev, step):
-    real, model, var = w.handles[-1]
+def lm_apply(col, w, ev, step, h=-1):
+    if ev[0] == "on":      # ("on", "orig" | "cur", event): the event is applied to the FIRST / the newest mapping
+        if ev[1] == "orig" and len(w.handles) == 1:
+            raise Skip()   # same as "cur" while there is only one mapping
+        return lm_apply(col, w, ev[2], step, 0 if ev[1] == "orig" else -1)
+    if ev[0] == "ext-set":  # the owner of a supplied dict writes to it: lookups pass through the stack, so it shows
+        if w.ext is None:
+            raise Skip()
+        dreal, dmodel, idx, dvar = w.ext
+        v = "x%d.%s" % (step, ev[1])
+        w.script.append(("%s[%r] = %r", (dvar, ev[1], v)))
+        dreal[ev[1]] = v
+        dmodel[ev[1]] = v
+        desc, obj, fn, _, cheap = w.supplied[idx]
+        w.supplied[idx] = (desc, obj, fn, fn(obj), cheap)
+        return
+    real, model, var = w.handles[h]
     if ev[0] == "set":
         v = "w%d.%s" % (step, ev[1])
         w.script.append(("%s[%r] = %r", (var, ev[1], v)))
@@ -929,6 +1037,8 @@ def lm_build(c, ctx, w):
         layers = [(c.pick(ctx["kinds"]), c.pick(SUBSETS)) for _ in range(nl)]
     for i, (kind, keys) in enumerate(layers):
         r, m, v = w.layer(kind, keys, "L%d" % i)
+        if kind == "plain" and w.ext is None:   # a dict the caller keeps writing to (see the ext-set event)
+            w.ext = (r, m, len(w.supplied) - 1, v)
         reals.append(r), models.append(m), lvars.append(v)
     if nl % 2:  # the constructor drops None layers
         reals.insert(1, None), models.insert(1, None), lvars.insert(1, "None")
@@ -950,10 +1060,11 @@ def drv_lm(c, ctx, col):
     for step in range(nops):
         ev = ctx["first"] if step == 0 and ctx.get("first") else c.pick(events)
         lm_apply(col, w, ev, step)
-        lm_light(col, w)
+        if not ctx.get("blind"):   # blind histories: no read between two events
+            lm_light(col, w)
         col.count("steps")
     col.state(repr([m.canon() for _, m, _ in w.handles]))
-    lm_reads(col, w)
+    lm_reads(col, w, ctx.get("full_all", False))
     lm_named(col, w)     # the cache (if an earlier event populated it) must not be stale
     lm_light(col, w)     # ... and populating it must not disturb lookups
     if len(col.samples) < col.max_samples:
@@ -1175,11 +1286,54 @@ def drv_sf(c, ctx, col):
             new = now
         model = new
         col.count("steps")
-        if not sf_light(col, script, mode, f, model):
+        # blind histories: no read of the formula between two operations (a read could flush / repair hidden state)
+        if not ctx.get("blind") and not sf_light(col, script, mode, f, model):
             return
     col.state(mode + repr(model))
     sf_reads(col, script, mode, f, model)
     col.sample({"ordering": mode, "history": list(script), "result": [R.t_str(t) for t in model]})
+
+
+def drv_sf_slice(c, ctx, col):
+    """slice replacement f[i:j] = [terms]: `__setitem__` is declared for slices (overload `key: slice, value:
+    Iterable[Term]`), so it must act as the list operation followed by the re-sort"""
+    mode = c.pick(MODES)
+    init = c.pick(ctx["inits"])
+    sl = c.pick(ctx["slices"])
+    vals = c.seq(ctx["terms"], ctx["max_vals"])
+    script = ["f = SimpleFormula([%s], _ordering=%r)" % (", ".join(_T(t) for t in init), mode),
+              "f[%s:%s] = [%s]" % ("" if sl.start is None else sl.start, "" if sl.stop is None else sl.stop,
+                                   ", ".join(_T(t) for t in vals))]
+    f = SimpleFormula([mk_term(t) for t in init], _ordering=mode)
+    before = R.sf_reorder(init, mode)
+    new = list(before)
+    new[sl] = list(vals)
+    want = R.sf_reorder(new, mode)
+    col.interesting()
+    col.state(mode + repr((before, sl.start, sl.stop, vals)))
+    col.sample({"ordering": mode, "history": script})
+    try:
+        f[sl] = [mk_term(t) for t in vals]
+        got = "ok"
+    except (FormulaInvalidError, TypeError, ValueError) as e:
+        got = type(e).__name__
+    now = sf_obs(f)
+    if got != "ok":
+        if now != before:
+            sf_violation(col, script, mode, "sequence-content", "rejected slice assignment changed the formula", now, before)
+        sf_violation(col, script, mode, "slice-assign-rejected", script[-1], got, [R.t_str(t) for t in want])
+        return
+    sf_reads(col, script, mode, f, want)
+    # a single Term is not an iterable of terms: list semantics say TypeError, the formula stays as it was
+    g = SimpleFormula([mk_term(t) for t in init], _ordering=mode)
+    try:
+        g[sl] = mk_term(("a",))
+        got = "ok"
+    except (FormulaInvalidError, TypeError) as e:
+        got = type(e).__name__
+    if got == "ok" or sf_obs(g) != before:
+        sf_violation(col, script[:1] + ["f[...] = T('a')"], mode, "operation-outcome", "slice = single Term is rejected, formula unchanged",
+                     (got, sf_obs(g)), ("TypeError", before))
 
 
 # =========================================================================================================
@@ -1243,6 +1397,11 @@ def subchecks(tier, seed):
         subs.append(Sub(name, drv_st_unary, st, shard_depth=sd,
                         bounds={"nesting_depth": st["depth"], "max_nodes_below_top": st["nodes"], "tuple_len": "0..2",
                                 "keys": ["root", "a", "b"], "redundant_wraps": "0..%d" % st["wraps"], "operations": ST_OPS}))
+    mr = {"depth": 2, "nodes": 3, "wraps": 1} if quick else {"depth": 3, "nodes": 4, "wraps": 1}
+    subs.append(Sub("structured-map-raise", drv_st_map_raise, mr, shard_depth=5,
+                    bounds={"nesting_depth": mr["depth"], "max_nodes_below_top": mr["nodes"], "redundant_wraps": "0..1",
+                            "callback": ["f(x, context)", "f(x, context=None)", "f(x)"], "raises": ["TypeError subclass", "ValueError"],
+                            "at": "every leaf"}))
     mg = {"depth": 2, "nodes": 3, "arity": 2, "arity_min": 0} if quick else {"depth": 3, "nodes": 3, "arity": 2, "arity_min": 0}
     subs.append(Sub("structured-merge", drv_st_merge, mg, shard_depth=7,
                     bounds={"operands": "0..2 nodes (leaf / tuple / Structured), nesting depth <= %d, <= 3 nodes each" % mg["depth"],
@@ -1263,6 +1422,7 @@ def subchecks(tier, seed):
                                 "layer_kinds": extra.get("kind_combos") or kinds, "top_name": tops,
                                 **({"first_event": repr(extra["first"]), "note": "VERIF_SEED-selected exhaustive slice of the "
                                     "thorough scope (histories of exactly %d events)" % max_ops} if "first" in extra else {}),
+                                **({"reads": "only at the end of each history (no read between events)"} if extra.get("blind") else {}),
                                 "keys_per_layer": "every subset of k1,k2,k3 for stacks of <= %d layers; for taller stacks the "
                                                   "2**n covering matrices (every per-key presence pattern for every key)" % full_upto,
                                 "mutating_events": len(events),
@@ -1275,6 +1435,11 @@ def subchecks(tier, seed):
         lm_sub("layered-kinds", kev, 1, 2, ALL_KINDS, [None], 5, max_layers=2)
         lm_sub("layered-kinds-2", kev, 2, 1, ALL_KINDS, [None], 6, max_layers=2, min_ops=2)
         lm_sub("layered-kinds-3", kev, 1, 2, ALL_KINDS, [None], 6, layer_counts=[3])
+    lm_sub("layered-aliasing", lm_events_alias(), 3, 1, ["plain", "lm:x"] if not quick else ["plain"],
+           [None, "t"], 5, max_layers=1, blind=True, full_all=True)
+    if not quick:
+        lm_sub("layered-aliasing-4", lm_events_alias(), 4, 0, ["plain"], [None], 7, layer_counts=[1], min_ops=4,
+               blind=True, full_all=True)
     if quick:
         lm_sub("layered-stacks", full, 1, 2, KINDS, [None, "t"], 6)
         lm_sub("layered-histories", reduced, 3, 1, ["plain", "lm:x"], [None], 6)
@@ -1293,11 +1458,20 @@ def subchecks(tier, seed):
     def sf_sub(name, ev, terms, max_ops, **extra):
         ctx = {"events": ev, "max_ops": max_ops, "inits": inits}
         ctx.update(extra)
-        subs.append(Sub(name, drv_sf, ctx, shard_depth=4,
+        subs.append(Sub(name, drv_sf, ctx, shard_depth=5 if extra.get("min_ops") == max_ops else 4,
                         bounds={"orderings": ctx.get("modes") or MODES, "terms": [R.t_str(t) for t in terms], "events": len(ev),
                                 **({"first_event": repr(extra["first"]), "note": "VERIF_SEED-selected exhaustive slice of the "
-                                    "thorough scope (histories of exactly %d events)" % max_ops} if extra else {}),
-                                "history": "<= %d events" % max_ops, "initial_formulas": [[R.t_str(t) for t in i] for i in inits]}))
+                                    "thorough scope (histories of exactly %d events)" % max_ops} if "first" in extra else {}),
+                                **({"reads": "only at the end of each history (no read between events)"} if extra.get("blind") else {}),
+                                "history": "%s %d events" % ("exactly" if extra.get("min_ops") == max_ops else "<=", max_ops),
+                                "initial_formulas": [[R.t_str(t) for t in i] for i in ctx["inits"]]}))
+    sf_sub("formula-sequence-blind", sf_events(T5, False), T5, 3, min_ops=2, blind=True)
+    subs.append(Sub("formula-slice-assign", drv_sf_slice,
+                    {"inits": [(), (("a",),), (("a", "b"), ("1",), ("b",), ("c", "a"), ("a",))], "terms": T5 if quick else T6,
+                     "max_vals": 2 if quick else 3,
+                     "slices": [slice(0, 1), slice(0, 0), slice(1, 3), slice(None, None), slice(-1, None), slice(2, 2)]},
+                    shard_depth=3, bounds={"orderings": MODES, "slices": "[0:1] [0:0] [1:3] [:] [-1:] [2:2]",
+                                           "replacement": "every sequence of <= %d terms" % (2 if quick else 3)}))
     if quick:
         sf_sub("formula-sequence", sf_events(T5, False), T5, 3)
         sf_sub("formula-sequence-wide", sf_events(T6, True), T6, 2)
@@ -1305,7 +1479,10 @@ def subchecks(tier, seed):
         sf_sub("formula-sequence-seed-slice", narrow, T5, 4, min_ops=4, first=narrow[seed % len(narrow)],
                modes=[MODES[seed % 3]])
     else:
-        sf_sub("formula-sequence", sf_events(T5, False), T5, 4)
+        narrow = sf_events(T5, False)
+        sf_sub("formula-sequence", narrow, T5, 3)
+        sf_sub("formula-sequence-4", narrow, T5, 4, min_ops=4, inits=inits[:1])
+        sf_sub("formula-sequence-blind-4", narrow, T5, 4, min_ops=4, inits=inits[1:], blind=True)
         sf_sub("formula-sequence-wide", sf_events(T6, True, True), T6, 3)
     # ---- OrderedSet
     subs.append(Sub("ordered-set", drv_os, {"items": ["x", "y", "z"] if quick else ["x", "y", "z", 1], "n": 3 if quick else 4},
